@@ -10,13 +10,16 @@ driver (property C12); text travels as hex of its bytes (ASCII), "-" = empty
   `c12.ppath <elm|-> <cnt|-> <text hex>`                        device.parse_path_elements
   `c12.fmt   <count|-> <segs>`                                  client.format_path
   `c12.fmtparse <count|-> <segs>`                               parse_path_elements( format_path( .. ))
+  `c12.seq   <index> <passes> <ops>`   the SAME operation list issued under several settings in a row
+       passes = `via/depth/multiple/fragment` joined by '+'
+       ops = `method|-:hasdata:tag_type:ndata:elements:data_size:offset:route:send:token(fragment off):token(on)`
   `c12.pipe  <via s|p|o> <depth> <multiple> <index> <fragment 0|1> <ops>`
        ops = `method:tag_type:ndata:elements:data_size:offset:route:send:token` joined by ','
 -/
 namespace Cpppo.Driver.Client
 open Cpppo.Wire Cpppo.Py Cpppo.Client
 
-def commands : List String := ["c12.parse", "c12.attr", "c12.ppath", "c12.fmt", "c12.fmtparse", "c12.pipe"]
+def commands : List String := ["c12.parse", "c12.attr", "c12.ppath", "c12.fmt", "c12.fmtparse", "c12.pipe", "c12.seq"]
 
 def cipTypes : List CipType :=
   Generated.clientCipTypes.map fun (n, tt, sz, k, lo, hi) =>
@@ -137,7 +140,57 @@ def showOutcome : Outcome → String
 
 def listOr (l : List String) : String := if l.isEmpty then "-" else ",".intercalate l
 
+def readRaw (s : String) : Option (RawOp × String × String) :=
+  match (s.split (· == ':')).toList.map (·.toString) with
+  | [m, hd, tt, nd, el, ds, off, ro, se, tokF, tokT] => do
+    let m ← if m = "-" then some none else (readMethod m).map some
+    let tt ← optNat tt
+    let nd ← nd.toNat?
+    let el ← optNat el
+    let ds ← optNat ds
+    let off ← if off = "a" then some none else if off = "n" then some (some none)
+              else off.toNat?.map fun v => some (some v)
+    let ro ← ro.toNat?
+    let se ← se.toNat?
+    pure ({ method := m, hasData := hd == "1", offset := off, tagType := tt, ndata := nd, elements := el,
+            dataSize := ds, route := ro, send := se }, tokF, tokT)
+  | _ => none
+
+def readPass (s : String) : Option Pass :=
+  match (s.split (· == '/')).toList.map (·.toString) with
+  | [via, d, m, f] => do
+    let via ← if via = "s" then some 0 else if via = "p" then some 1 else if via = "o" then some 2 else none
+    pure { via := via, depth := (← d.toInt?), multiple := (← m.toNat?), fragment := f == "1" }
+  | _ => none
+
+def runPass (index : Nat) (p : Pass) (ops : List (Op × String)) : String :=
+  let packets := issue (fun (o : Op × String) => estimate cfg p.multiple o.1) (fun o => opKey o.1)
+    p.multiple cfg.reqMin cfg.rpyMin index ops
+  let step : Unit → (Op × String) → Unit × String := fun _ o => ((), o.2)
+  let (out, oc) :=
+    if p.via = 0 then synchronous step () packets
+    else if p.via = 1 then pipeline step p.depth index () packets
+    else operate step p.depth.toNat index () packets
+  let ps := listOr (packets.map (showPacket p.fragment))
+  let rs := listOr (out.map fun (i, t) => s!"{i}:{t}")
+  s!"P={ps} R={rs} O={showOutcome oc}"
+
+/-- the passes over the caller's list, which `issue` leaves as it is (`callerAfter true`) -/
+def runSeq (index : Nat) : List (RawOp × String × String) → List Pass → List String
+  | _, [] => []
+  | ops, p :: ps =>
+    let now := ops.map fun (r, tf, tt) => (r.toOp p.fragment, if p.fragment then tt else tf)
+    let after := (callerAfter true p.fragment (ops.map (·.1))).zip (ops.map (·.2))
+    runPass index p now :: runSeq index after ps
+
 def handle : List String → Option String
+  | ["c12.seq", index, passes, ops] => do
+    let index ← index.toNat?
+    let passes ← (passes.split (· == '+')).toList.map (·.toString) |>.mapM readPass
+    let ops ← (splitNonEmpty ops ',').mapM readRaw
+    let final := passes.foldl (fun acc p => callerAfter true p.fragment acc) (ops.map (·.1))
+    let a := if final == ops.map (·.1) then "same" else "altered"
+    pure (" ;; ".intercalate (runSeq index ops passes) ++ s!" A={a}")
   | ["c12.parse", frag, ity, txt] => do
     let ity ← textOfHex ity
     let txt ← textOfHex txt
